@@ -49,10 +49,11 @@ def _src(obj):
     return ast.parse(textwrap.dedent(inspect.getsource(obj)))
 
 
-def dispatch_table():
-    """ActionType name -> handler method name spawned by run_game ('' = not routed)."""
+def dispatch_table_ast():
+    """ActionType name -> handler method name spawned by the dispatcher ('' = not routed): every `match` over ActionType
+    members anywhere in GameCoordinator whose arms spawn a handler task."""
     from AIDojoCoordinator.coordinator import GameCoordinator
-    tree = _src(GameCoordinator.run_game)
+    tree = _src(GameCoordinator)
     table = {}
     default = None
     for node in ast.walk(tree):
@@ -138,7 +139,7 @@ def awaits_in_locks():
     return res
 
 
-def agent_tables():
+def agent_tables_ast():
     """(initialised per agent on join, dropped on removal, read as a whole (all()/len()/iteration))"""
     from AIDojoCoordinator.coordinator import GameCoordinator
 
@@ -169,6 +170,105 @@ def agent_tables():
             aggregated.add(attr_of(node.iter))
     return sorted(init), sorted(dropped), sorted(aggregated)
 
+
+
+def _probe_live():
+    """Facts about the CURRENT code obtained by running it (robust against moving code between methods): one agent joins a
+    live in-process coordinator, plays every game action type, resets, and leaves mid-episode.
+    Returns (dispatch: action type -> name of the handler coroutine that received it,
+             tables holding the agent after joining / playing, tables still holding it after it left)."""
+    import inspect as _inspect
+    from .sim import Sim, default_config
+    from AIDojoCoordinator.game_components import Action, ActionType, AgentInfo, IP, Network, Service, Data
+    sim = Sim(default_config(env={"required_players": 1}))
+    co = sim.coord
+    seen = {}
+    try:
+        for name, f in _inspect.getmembers(co, _inspect.iscoroutinefunction):
+            if not name.startswith("_process_"):
+                continue
+
+            def wrap(f=f, name=name):
+                async def w(*args, **kw):
+                    for a in list(args) + list(kw.values()):
+                        if isinstance(a, Action):
+                            seen.setdefault(a.type.name, name)
+                    return await f(*args, **kw)
+                return w
+            setattr(co, name, wrap())
+        addr = ("127.0.0.1", 40000)
+        src, c2 = IP("192.168.2.2"), IP("213.47.23.195")
+        msgs = [Action(ActionType.JoinGame, {"agent_info": AgentInfo("probe", "Attacker")}),
+                Action(ActionType.ScanNetwork, {"source_host": src, "target_network": Network("192.168.1.0", 24)}),
+                Action(ActionType.FindServices, {"source_host": src, "target_host": IP("192.168.1.2")}),
+                Action(ActionType.FindData, {"source_host": src, "target_host": src}),
+                Action(ActionType.ExploitService, {"source_host": src, "target_host": IP("192.168.1.2"), "target_service": Service("ssh", "passive", "8.1.0", False)}),
+                Action(ActionType.ExfiltrateData, {"source_host": src, "target_host": c2, "data": Data("u", "d")}),
+                Action(ActionType.BlockIP, {"source_host": src, "target_host": src, "blocked_host": IP("192.168.1.3")}),
+                Action(ActionType.ResetGame, {"request_trajectory": False}),
+                Action(ActionType.ScanNetwork, {"source_host": src, "target_network": Network("192.168.1.0", 24)})]
+        sim.connect(0)
+        held = set()
+
+        def holders():
+            out = set()
+            for k, v in vars(co).items():
+                try:
+                    if isinstance(v, (dict, set, list)) and addr in v:
+                        out.add(k)
+                except TypeError:
+                    pass
+            return out
+        for m in msgs:
+            sim.send(0, m.to_json())
+            held |= holders()
+        sim.send(0, Action(ActionType.QuitGame, {}).to_json())
+        left = holders()
+        return seen, held, left
+    finally:
+        sim.close()
+
+
+_LIVE = {}
+
+
+def _live():
+    if "v" not in _LIVE:
+        try:
+            _LIVE["v"] = _probe_live()
+        except Exception as e:      # the probe itself could not run: the syntactic reading below is all there is
+            _LIVE["v"] = ({}, set(), set())
+            _LIVE["err"] = repr(e)
+    return _LIVE["v"]
+
+
+def _handler_kind(name):
+    n = (name or "").lower()
+    for k in ("join", "quit", "reset", "game"):
+        if k in n:
+            return k
+    return None
+
+
+def dispatch_table():
+    """ActionType name -> handler: what really received a message of that type on a live coordinator, completed by the
+    syntactic reading of the dispatcher for types the probe could not exercise."""
+    table, default = dispatch_table_ast()
+    seen, _, _ = _live()
+    for t, h in seen.items():
+        table[t] = h
+    return table, default
+
+
+def agent_tables():
+    init_a, dropped_a, aggregated = agent_tables_ast()
+    _, held, left = _live()
+    connection_level = {"_agent_response_queues", "answers_queues"}      # per-connection, not per-agent
+    init = (set(init_a) | held) - connection_level
+    dropped = (set(dropped_a) | (held - left)) - connection_level if held else set(dropped_a)
+    if held:
+        dropped -= (left & set(dropped_a))      # a syntactic 'pop' that did not remove the agent does not count
+    return sorted(init), sorted(dropped), aggregated
 
 def lean_str_list(xs):
     return "[" + ", ".join('"' + x + '"' for x in xs) + "]"
@@ -213,7 +313,7 @@ def generate():
     L.append("def actionTypes : List ATy := [" + ", ".join("." + ATY[a] for a in ats if a in ATY) + "]")
     L.append(f"def unknownActionTypes : Nat := {sum(1 for a in ats if a not in ATY)}")
     L.append("/-- run_game: action type -> handler coroutine spawned (`none` = an arm that spawns nothing) -/")
-    L.append("def dispatch : List (ATy × Handler) := [" + ", ".join(f"(.{ATY[k]}, .{HANDLERS.get(v, 'none' if v == '' else 'other')})" for k, v in sorted(disp.items()) if k in ATY) + "]")
+    L.append("def dispatch : List (ATy × Handler) := [" + ", ".join(f"(.{ATY[k]}, .{HANDLERS.get(v) or _handler_kind(v) or ('none' if v == '' else 'other')})" for k, v in sorted(disp.items()) if k in ATY) + "]")
     L.append("/-- parameters subscripted without a guard by the implementation of each action type -/")
     L.append("def paramsRead : List (ATy × List Param) := [" + ", ".join(f"(.{ATY[k]}, {lparams(v or [])})" for k, v in sorted(pr.items()) if k in ATY) + "]")
     L.append(f"def paramsUnreadable : Nat := {sum(1 for v in pr.values() if v is None)}")
